@@ -188,8 +188,9 @@ func needsUpdate(backend Database, strat UpdateStrategy, alias string, cfg *conf
 		return true
 	}
 
-	if strat&UpdateMissing > 0 && (build.Certificate == nil || build.PrivateKey == nil) {
-		logging.Debugf("%v needs update. reason: certificate or private key is missing", cfg.Alias)
+	if strat&UpdateMissing > 0 && (build.Certificate == nil ||
+		(build.PrivateKey == nil && build.Request == nil)) {
+		logging.Debugf("%v needs update. reason: certificate or key material is missing", cfg.Alias)
 		return true
 	}
 
